@@ -1328,22 +1328,19 @@ class C16(Property):
             if rc != 0 or len(r) != len(ch):
                 raise ExecError("c16 executor rc=%s: %s" % (rc, out[-2000:]))
             res += r
-        obs = []
-        for c, r in zip(cases, res):
-            if r.get("err"):
-                # a panic or an unexpected error of the implementation on an in-scope history is an
-                # observable in itself: it never matches the model
-                obs.append({"obs": r.get("obs") or [], "err": r["err"], "at": r.get("at")})
-            else:
-                o = {"obs": r["obs"], "at": r.get("at")}
-                if r.get("pair") is not None:
-                    o["pair"] = r["pair"]
-                if r.get("free") is not None:
-                    o["free"] = r["free"]
-                if r.get("gate") is not None:
-                    o["gate"] = r["gate"]
-                obs.append(o)
-        return obs
+        return [self._to_obs(r) for r in res]
+
+    @staticmethod
+    def _to_obs(r):
+        if r.get("err"):
+            # a panic or an unexpected error of the implementation on an in-scope history is an
+            # observable in itself: it never matches the model
+            return {"obs": r.get("obs") or [], "err": r["err"], "at": r.get("at")}
+        o = {"obs": r["obs"], "at": r.get("at")}
+        for f in ("pair", "free", "gate"):
+            if r.get(f) is not None:
+                o[f] = r[f]
+        return o
 
     # ------------------------------------------------------------------ direct monitor
     def extra(self, ctx):
@@ -1382,11 +1379,31 @@ class C16(Property):
         ctx.notes.append("race monitor: %d free-running histories (%d with overlapping calls), %d not linearisable, "
                          "%d linearisable against the reference but not against the transcribed model"
                          % (len(cases), overl, len(bad), only_model))
+        racebin = res
         res = [{"what": self.describe_failure(c, o), "replay": {"case": c, "observed": o}} for c, o in bad[:3]]
         if only_model and not res:
             c, o = next((c, o) for c, o, (a, p) in zip(cases, obs, ev) if p and not a)
             res.append({"what": "free-running history explained by the reference model but not by the transcribed model "
                                 "(model and implementation disagree)", "replay": {"case": c, "observed": o}})
+        # the forced schedule take_gate (a loader parked while other keys are used, ticks included) under
+        # the race detector: the window between Take's look-up and its store is wide open here
+        gcases = []
+        for i in range(240):
+            c = self._gen_cache_gate(rng, "thorough") if i % 3 else self._gen_cachew_gate(rng, "thorough")
+            c["id"] = i
+            gcases.append(c)
+        rc, out, rs = vlib.go_run(racebin, gcases, tag="c16racegate", timeout=1500, env={"GORACE": "halt_on_error=1 exitcode=66"})
+        if "DATA RACE" in out or rc == 66:
+            return res + [{"what": "data race in core/collection while a Take's loader is in flight and other keys are used",
+                           "replay": out[-4000:]}]
+        if rc != 0 or len(rs) != len(gcases):
+            raise ExecError("c16race (take_gate) rc=%s: %s" % (rc, out[-2000:]))
+        gobs = [self._to_obs(r) for r in rs]
+        gev = vlib.coq_eval_cases(self.id, self.check_module, [self.coq_case(c, o) for c, o in zip(gcases, gobs)])
+        gbad = [(c, o) for c, o, (a, p) in zip(gcases, gobs, gev) if not p]
+        ctx.notes.append("race monitor: %d histories with a Take held in its loader (-race), %d property failures"
+                         % (len(gcases), len(gbad)))
+        res += [{"what": self.describe_failure(c, o), "replay": {"case": c, "observed": o}} for c, o in gbad[:2]]
         return res
 
     # ------------------------------------------------------------------ rendering
